@@ -51,6 +51,9 @@ var ageCheck = &core.Check{Name: "c19/payload-age", Quick: 3000, Thorough: 15000
 	default:
 		d = 0
 	}
+	if d > 0 {
+		c.NonTrivial(fmt.Sprintf("%s|%d|%d", secret, l, d))
+	}
 	aged := tcref.Payload(secret, c.Content("nonce", 8), f-uint64(d))
 	ok, err := srv.CheckPayload(aged)
 	if expired {
@@ -92,6 +95,7 @@ var clockCheck = &core.Check{Name: "c19/payload-clock", Quick: 2, Thorough: 32, 
 	}
 	time.Sleep(wait)
 	c.Class("payload presented after its lifetime, real time")
+	c.NonTrivial(fmt.Sprintf("%s|%d|%v", secret, l, wait))
 	if ok, err := srv.CheckPayload(p); ok || err == nil {
 		return fmt.Errorf("lifetime %d s: payload %q from GeneratePayload was still accepted %v after it was issued (%v, %v)", l, p, time.Since(t0).Round(time.Millisecond), ok, err)
 	}
